@@ -349,11 +349,14 @@ func derefS(s *stateProj) string {
 
 // waitOutbox returns the packets gossiped by the last command of n (it waits briefly for the send
 // goroutines when the process marked a new packet as seen).
-func (n *node) waitOutbox(expect bool) []sent {
+func (n *node) waitOutbox(expect, maybe bool) []sent {
 	deadline := time.Now().Add(2 * time.Second)
+	if !expect && maybe {
+		deadline = time.Now().Add(40 * time.Millisecond)
+	}
 	for {
 		out := n.client.take()
-		if len(out) > 0 || !expect || time.Now().After(deadline) {
+		if len(out) > 0 || (!expect && !maybe) || time.Now().After(deadline) {
 			if len(out) > 0 {
 				// let the remaining sends of the same gossip land
 				time.Sleep(2 * time.Millisecond)
